@@ -148,7 +148,7 @@ func RunC19(c *Ctx) {
 	r := c.Rep
 	r.Rule = "case = one round: 16..32 goroutines run a PRNG-chosen mix of full scans, seeks, ReadRef and RefsFor on ONE shared Reader (memory-backed and file-backed) and ONE shared Merged (raw NewMerged and Stack.Merged()) built with -race; every result is compared with the answer computed sequentially beforehand, and the race detector's log is parsed by the driver (any report with a reftable frame is a violation). distinct = (round, shared object kind, table); non-trivial = at least 16 goroutines issued overlapping queries on the shared object"
 	r.Assumptions = []string{"the race detector only sees interleavings that actually occur; rounds are repeated"}
-	rounds := c.N(10, 200)
+	rounds := c.N(8, 200)
 	for round := 0; round < rounds; round++ {
 		if !c.Mine(round) {
 			continue
